@@ -16,13 +16,23 @@ def _pending(fd):
 
 
 def _blocked_in_read0(pid):
+    """delta waits for input: some thread sleeps in read(0, ...), and every other thread sleeps too - in a read of its own
+    (the signal-handler thread), a poll, or on a futex (a design in which a helper thread reads stdin and the main thread
+    waits for it is observed just the same)."""
     try:
-        st = open(f"/proc/{pid}/task/{pid}/stat").read()
-        state = st[st.rindex(")") + 2]
-        sc = open(f"/proc/{pid}/task/{pid}/syscall").read().split()
-    except (FileNotFoundError, ProcessLookupError, ValueError):
+        reads0 = False
+        for tid in os.listdir(f"/proc/{pid}/task"):
+            st = open(f"/proc/{pid}/task/{tid}/stat").read()
+            if st[st.rindex(")") + 2] != "S":
+                return False
+            sc = open(f"/proc/{pid}/task/{tid}/syscall").read().split()
+            if not sc or sc[0] not in ("0", "7", "271", "202", "232", "281"):
+                return False
+            if sc[0] == "0" and len(sc) >= 2 and sc[1] == "0x0":
+                reads0 = True
+    except (FileNotFoundError, ProcessLookupError, ValueError, OSError):
         return False
-    return state == "S" and len(sc) >= 2 and sc[0] == "0" and sc[1] == "0x0"
+    return reads0
 
 
 def _blocked_in_read_any(pid):
